@@ -59,10 +59,11 @@ Definition law (pol : bool) (pop : population) (s : sel) : list (Z * Q) :=
 Definition enc_law (l : list (Z * Q)) : list Z :=
   flat_map (fun cq => [fst cq; Qnum (snd cq); Z.pos (Qden (snd cq))]) l.
 
-(* input = [seed; draws; [pol; pop; spec]]; the frequencies are judged by the driver *)
+(* input = [seed; draws; [pol; pop; spec]] or [seed; draws; [pol; pop; spec; warm-up population sizes]]: the selector
+   value may have been used on other populations before - which must not matter; the frequencies are judged by the driver *)
 Definition judge (t : tree) : option (list Z) :=
   match t with
-  | L [L [_; _; L [pol; pop; spec]]; o] =>
+  | L [L [_; _; L (pol :: pop :: spec :: _)]; o] =>
     olet pol := option_map Z.odd (tZ pol) in olet pop := tlist (tlist tZ) pop in olet s := dec_sel spec in
     match build_error s with
     | Some (a, b) =>
